@@ -59,7 +59,8 @@ impl ErrSpan {
         match self {
             ErrSpan::One(r)      => r.clone(),
             ErrSpan::Two([r, _]) => r.clone(),
-            ErrSpan::Many(r)     => r.first().unwrap().clone(),
+            // (link errors about blocks carry no span: there is no single source to point into)
+            ErrSpan::Many(r)     => r.first().cloned().unwrap_or(0..0),
         }
     }
 
